@@ -55,6 +55,8 @@ func main() {
 		usage()
 	}
 	switch os.Args[1] {
+	case "spork-halt-child":
+		sporkHaltChild()
 	case "facts":
 		fs := flag.NewFlagSet("facts", flag.ExitOnError)
 		out := fs.String("out", "", "output directory for Gen/*.lean")
